@@ -857,11 +857,11 @@ func c13Shipped(c *drv.Ctx) error {
 	var cases []shippedCase
 	for _, s := range sh {
 		for _, h := range lab.HostileInputs {
-			cases = append(cases, shippedCase{s.Dir, proto.QStr(h)})
+			cases = append(cases, shippedCase{Grammar: s.Dir, Input: proto.QStr(h)})
 		}
 		for _, in := range s.Samples {
 			if len(in) < 4000 {
-				cases = append(cases, shippedCase{s.Dir, proto.QStr(in + "\xff")}, shippedCase{s.Dir, proto.QStr("\x00" + in)}, shippedCase{s.Dir, proto.QStr(in + "\U0010FFFF")})
+				cases = append(cases, shippedCase{Grammar: s.Dir, Input: proto.QStr(in + "\xff")}, shippedCase{Grammar: s.Dir, Input: proto.QStr("\x00" + in)}, shippedCase{Grammar: s.Dir, Input: proto.QStr(in + "\U0010FFFF")})
 			}
 		}
 	}
